@@ -1,5 +1,5 @@
 (** C02 - every emitted byte stream is a well-formed box tree. *)
-From Muxide Require Export Model.Base Model.Boxes Spec.Bmff Proofs.BaseProofs.
+From Muxide Require Export Model.Base Model.Boxes Model.Frag Spec.Bmff Spec.FragSpec Spec.Checks Proofs.BaseProofs Proofs.FragStructureProofs.
 Open Scope N_scope.
 
 Theorem C02_reader_recovers_every_built_box :
@@ -7,3 +7,17 @@ Theorem C02_reader_recovers_every_built_box :
     parse_box (build_box [t0; t1; t2; t3] p ++ r) = Some ([t0; t1; t2; t3], p, r).
 Proof. exact parse_box_build_box. Qed.
 Print Assumptions C02_reader_recovers_every_built_box.
+
+(* every fragmented init segment is a well-formed tree: ftyp, moov(mvhd, mvex/trex for track 1,
+   one complete trak with consistent (empty) tables), for all four codec configurations *)
+Theorem C02_init_segment_is_wellformed : forall c : frag_config,
+  len (init_segment_bytes c) < 4294967296 -> check_init_structure (init_segment_bytes c) = true.
+Proof. exact init_segment_is_wellformed. Qed.
+Print Assumptions C02_init_segment_is_wellformed.
+
+(* every media segment is exactly moof(mfhd, traf(tfhd, tfdt, trun)) + mdat with consistent sizes *)
+Theorem C02_media_segment_is_wellformed : forall (l : list frag_sample) (seq base : N),
+  seg_fits l -> 96 + 16 * len l < 2147483648 -> seq < 4294967296 -> base < 18446744073709551616 ->
+  check_segment_structure (build_media_segment l seq base) = true.
+Proof. exact media_segment_is_wellformed. Qed.
+Print Assumptions C02_media_segment_is_wellformed.
